@@ -390,9 +390,10 @@ def sub_ellipsoids(ck, tier, rng):
                 axd = math.hypot(xin[j, 0], xin[j, 1])
                 nearp = axd < 1e-6 * abs(xin[j, 2])
                 if nearp:
-                    e_ = nan_axis.setdefault(doc[i - 1]["id"], [0, 0.0])
+                    e_ = nan_axis.setdefault(doc[i - 1]["id"], [0, 0.0, ""])
                     e_[0] += 1
-                    e_[1] = max(e_[1], axd)
+                    if axd > e_[1]:
+                        e_[1], e_[2] = axd, lines[j]
                 ck.violation("ellipsoid:xyz2blh:nan:%s" % ("near-pole" if nearp else kind),
                              "%s: xyz2blh returns NaN for a point %.3g m from the polar axis" % (doc[i - 1]["id"], axd),
                              dict(request=lines[j], reply=rep[j]))
@@ -409,7 +410,7 @@ def sub_ellipsoids(ck, tier, rng):
             if kind.startswith("equator") and abs(g[j, 0]) * float(a) > 1e-9:
                 ck.violation("ellipsoid:xyz2blh:equator:latitude", "latitude for z=0 is %r" % g[j, 0],
                              dict(request=lines[j], reply=rep[j]))
-    ck.counters["xyz2blh_nan_next_to_polar_axis{ellipsoid: [count, max distance from axis in m]}"] = nan_axis
+    ck.counters["xyz2blh_nan_next_to_polar_axis{ellipsoid: [count, max distance from axis in m, request]}"] = nan_axis
 
 
 # ---------------------------------------------------------------------------------------------
@@ -529,17 +530,21 @@ def sub_angles(ck, tier, rng):
     nr = tier_n(tier, 1500, 20000)
     rnd = [LD(x) for x in rng.uniform(0, 360, nr)] + [LD(x) for x in 10 ** rng.uniform(-9, 0, nr // 10)] + \
           [LD(x) for x in rng.uniform(360, 3600, nr // 10)] + [LD(0), LD(360), LD(359.99999999999), LD(90), LD(1) / 3600]
-    degs = adv + rnd
+    # a few readable witnesses first: 12-34-59.6, 12-34-59.96, ... print as 12-34-60[.0...]
+    canon = [LD(12) + LD(34) / 60 + (60 - LD(4) / 10 * LD(10) ** -p) / 3600 for p in (2, 0, 1, 3, 4, 5, 6)]
+    canon += [LD(359) + LD(59) / 60 + (60 - LD(4) / 10 * LD(10) ** -2) / 3600]
+    degs = canon + adv + rnd
     gons = []
     for i, dg in enumerate(degs):
         g = float(dg / LD("0.9"))
         gons.append(g)
         gons.append(-g)
-    gons = sorted(set(gons), key=lambda v: (abs(v), v)) + [-0.0]
+    cg = [float(dg / LD("0.9")) for dg in canon]
+    gons = cg + sorted(set(gons) - set(cg), key=lambda v: (abs(v), v)) + [-0.0]
     combos = [(m, p) for m in range(4) for p in range(7)]
     reqs, modes, precs, vals = [], [], [], []
     for j, g in enumerate(gons):
-        cs = combos if (tier == "thorough" or j % 4 == 0) else [combos[(j * 5 + t * 11) % 28] for t in range(7)]
+        cs = combos if (tier == "thorough" or j % 4 == 0 or j < len(cg)) else [combos[(j * 5 + t * 11) % 28] for t in range(7)]
         for (m, p) in cs:
             reqs.append("G2D %r %d %d" % (g, m, p)); modes.append(m); precs.append(p); vals.append(g)
     reps = ask(ck, reqs, "gon2deg", "angles:gon2deg:")
@@ -554,7 +559,7 @@ def sub_angles(ck, tier, rng):
     rads = [float(LD(g) * PI_LD / 200) for g in gons[::3]] + [-0.0]
     reqs, modes, precs, vals = [], [], [], []
     for j, r in enumerate(rads):
-        cs = combos if tier == "thorough" else [combos[(j * 5 + t * 11) % 28] for t in range(5)]
+        cs = combos if (tier == "thorough" or j < 3) else [combos[(j * 5 + t * 11) % 28] for t in range(5)]
         for (m, p) in cs:
             reqs.append("R2D %r %d %d" % (r, m, p)); modes.append(m); precs.append(p); vals.append(r)
     reps = ask(ck, reqs, "rad2deg_str", "angles:rad2deg_str:")
@@ -570,7 +575,7 @@ def sub_angles(ck, tier, rng):
     lrad = [x for x in lrad[::2] if x != 0] + [-x for x in lrad[1::2] if x <= PI_D and x != 0] + [0.0, -0.0]
     reqs, precs, vals = [], [], []
     for j, r in enumerate(lrad):
-        for p in ([0, 1, 2, 3, 4, 5, 6, 7, 8] if tier == "thorough" else [(j + t * 4) % 9 for t in range(3)]):
+        for p in ([0, 1, 2, 3, 4, 5, 6, 7, 8] if (tier == "thorough" or j < 4) else [(j + t * 4) % 9 for t in range(3)]):
             reqs.append("LAT %r %d" % (r, p)); precs.append(p); vals.append(r)
     reps = ask(ck, reqs, "latitude/longitude", "angles:latlong:")
     if reps is not None:
@@ -677,6 +682,8 @@ def sub_dms(ck, tier, rng, degs):
         nf = int(rng.integers(0, 7)) if (k % 3 and k % 5) else 0
         frac = "".join(str(int(c)) for c in rng.integers(0, 10, nf))
         neg = (k % 9 == 0)
+        if k == 0:
+            d, mi, si, frac, neg = 12, 34, 0, "", False          # readable witness: 12.34 = 12 deg 34 min
         lit = "%d.%02d%02d%s" % (d, mi, si, frac)
         x = float(lit)
         val = (Fraction(d) + Fraction(mi, 60) + Fraction("%d.%s" % (si, frac or "0")) / 3600) * PI_F / 180
@@ -1175,6 +1182,13 @@ def run(tier, seed):
         ck.inconc("self-test switch VERIF_C18_BREAK=%s active" % BREAK)
         ck.violation("selftest:switch-active", "oracle deliberately broken (%s); not a statement about gama" % BREAK, None)
     ck.minimum = dict(evaluations=tier_n(tier, 15000000, 140000000), distinct=300)
+    # one witness per key *family* first (the runner writes replay files for the first 20 distinct keys only)
+    fam_seen, first, rest = set(), [], []
+    for v in ck.violations:
+        fam = re.sub(r":prec=\d+$", "", v["key"])
+        (rest if fam in fam_seen else first).append(v)
+        fam_seen.add(fam)
+    ck.violations = first + rest
     if os.environ.get("VERIF_C18_DEBUG"):
         seen = set()
         for v in ck.violations:
